@@ -31,7 +31,7 @@ func (readSched) Name() string    { return "read-schedule" }
 func (readSched) Props() []string { return []string{"C08"} }
 func (readSched) Runs(tier string) int64 {
 	if tier == "thorough" {
-		return 60000
+		return 300000
 	}
 	return 1500
 }
